@@ -1144,3 +1144,30 @@ def acquire_snapshot_whole_value(ctx):
                           "false without any concurrent writer" % (fn.pat.split("::")[-1], fn.expr(x)[:60]), fn.where(x), fn=fn)
     if n_seen < 1:
         ctx.broken.append("GUARD.acquire-snapshot: no 'keep the current value' test found in any guard_ptr::acquire (hazard_pointer has one)")
+
+
+def retire_list_pairing(ctx):
+    rid = "LIST.head-tail-paired"
+    ctx.rule(rid, "retire_list keeps (first, last) paired: wherever first is reset to null (constructor, steal) last is reset on the same path - push() "
+                  "sets last only when it is null, so a stale last survives into the next batch, and the hand-over at thread exit (orphan_list::add) "
+                  "links the global list behind a node of an earlier, already destroyed batch: the nodes already in the orphan list are cut off and "
+                  "never destroyed")
+    n = 0
+    for pat in (R + "detail::retire_list::steal", R + "detail::retire_list::retire_list"):
+        for fn in flow._shapes(ctx, pat):
+            firsts, lasts = [], []
+            for b, i, e, nd in fn.events():
+                if nd["k"] == "bin" and nd.get("op") == "=":
+                    k = fn.kids(e)
+                    ln = fn.nodes[k[0]]
+                    if ln["k"] == "member" and ln.get("leaf") in ("first", "last") and fn.nodes[k[1]]["k"] in ("null", "lit", "cast") and "nullptr" in fn.expr(k[1]):
+                        (firsts if ln["leaf"] == "first" else lasts).append(e)
+            if not firsts:
+                continue
+            n += 1
+            ok = bool(lasts) and all(flow.always_after(fn, f_, lasts)[0] or any(fn.before(l_, f_) for l_ in lasts) for f_ in firsts)
+            ctx.check(ok, rid, pat + "#first-null=>last-null", "first and last are reset together",
+                      "first is reset to null without resetting last on the same path: the next push() keeps the stale last (it only sets last when it is null), and the "
+                      "list's tail pointer then refers to a node of the previous, already reclaimed batch", fn.where(firsts[0]), fn=fn)
+    if n < 1:
+        ctx.broken.append("LIST.head-tail-paired: retire_list::steal not found / does not reset first")
